@@ -69,6 +69,11 @@ impl Runner for UnsyncRunner {
             },
             "C" => (cache.contains_key(&TK::new(num(1), &cn)) as u8).to_string(),
             "T" => fmt_pairs(cache.iter().map(|(k, v)| (k.k, v.v)).collect()),
+            "TD" => {
+                let it = cache.iter();
+                self.clock.advance(dur_ns(toks[1].parse().expect("bad duration")));
+                fmt_pairs(it.map(|(k, v)| (k.k, v.v)).collect())
+            }
             "X" => {
                 cache.invalidate(&TK::new(num(1), &cn));
                 "-".to_string()
